@@ -1,3 +1,998 @@
-SHARDS = 5
-def models(ctx): return []
-def generate(ctx, rnd): return []
+"""C07, part 3: the thermo/kinetics documents (write_thermo_yaml, write_cti).
+
+A case is a small recipe ({'part': 'doc', 'seed': ..., knobs}); `build` expands it
+deterministically into an abstract model M (phases, species, reactions, BEPs, lateral
+interactions, unit system, T, P, Motz-Wise) and the real pmutt objects.  `execute` writes both
+files, tokenises them (yaml.safe_load / ast), projects every entry next to the model's own value
+in the requested units and records one event per entry; spec/Trace_OmkmDoc.tla judges.
+"""
+import ast
+import json
+import random
+import re
+
+from harness import core
+from harness.core import to_dec
+
+SHARDS = 6
+UNIT_KEYS = ('length', 'time', 'quantity', 'energy', 'act_energy', 'pressure', 'mass')
+DEFAULT_UNITS = {'length': 'cm', 'time': 's', 'quantity': 'molec', 'energy': 'cal',
+                 'act_energy': 'cal/mol', 'pressure': 'bar', 'mass': 'kg'}
+ATOMS = ['H', 'C', 'N', 'O']
+METALS = ['Ru', 'Pt', 'Ni', 'Cu']
+YAML11_WORDS = {'ON', 'NO', 'OFF', 'YES', 'Y', 'TRUE', 'FALSE', 'NULL'}
+
+
+def codes(s):
+    return [ord(ch) for ch in s]
+
+
+# --------------------------------------------------------------------------
+# the abstract model
+# --------------------------------------------------------------------------
+def _comp_name(comp):
+    return ''.join('%s%s' % (el, '' if n == 1 else n) for el, n in comp.items())
+
+
+def _rand_coeffs(rnd, n):
+    mags = [1.0, 1e-3, 1e-6, 1e-9, 1e-12, 1e3, 1.0, 1e2, 1.0]
+    return [round(rnd.uniform(-9, 9), rnd.choice([3, 6, 9])) * mags[i % len(mags)] for i in range(n)]
+
+
+def _thermo(rnd, family):
+    T_low = rnd.choice([200., 298., 300.])
+    T_high = rnd.choice([1000., 1500., 3000.])
+    if family == 'nasa':
+        return {'T_low': T_low, 'T_mid': rnd.choice([500., 642.8571428571429, 800.]), 'T_high': T_high,
+                'a_low': _rand_coeffs(rnd, 7), 'a_high': _rand_coeffs(rnd, 7)}
+    if family == 'nasa9':
+        n = rnd.choice([1, 2, 2, 3])
+        cuts = [T_low] + sorted(rnd.sample([450., 600., 750., 900.], n - 1)) + [T_high]
+        return {'segments': [{'T_low': cuts[i], 'T_high': cuts[i + 1], 'a': _rand_coeffs(rnd, 9)}
+                             for i in range(n)], 'shuffle': rnd.random() < 0.3}
+    return {'T_low': T_low, 'T_high': T_high, 'a': _rand_coeffs(rnd, 8)}
+
+
+def abstract_model(case):
+    """Deterministic expansion of the recipe into the abstract model M."""
+    rnd = random.Random(case['seed'])
+    big = case.get('size', 'small') in ('big', 'huge')
+    M = {'T': rnd.choice([300., 500., 650.5, 900.]), 'P': case.get('P', 1.0),
+         'motz': rnd.random() < 0.5}
+    # ---- units
+    uform = case.get('units_form') or rnd.choice(['obj', 'obj', 'dict', 'absent'])
+    if uform == 'absent':
+        units = dict(DEFAULT_UNITS)
+    else:
+        units = {'length': rnd.choice(['cm', 'm']), 'time': 's',
+                 'quantity': rnd.choice(['mol', 'molec']),
+                 'energy': rnd.choice(['kcal', 'cal', 'J', 'kJ']),
+                 'act_energy': rnd.choice(['kcal/mol', 'cal/mol', 'J/mol', 'kJ/mol']),
+                 'pressure': rnd.choice(['atm', 'bar', 'Pa']), 'mass': rnd.choice(['g', 'kg'])}
+    M['units'], M['units_form'] = units, uform
+    # ---- phases
+    n_iface = case.get('n_iface', rnd.choice([1, 1, 2]))
+    has_bulk = case.get('bulk', rnd.random() < 0.6)
+    phases = [{'name': 'gas', 'kind': 'gas'}]
+    if has_bulk:
+        phases.append({'name': 'bulk', 'kind': 'solid', 'density': rnd.choice([12.4, 8.9, 21.45])})
+    tags = ['T', 'S'][:n_iface]
+    metal = rnd.choice(METALS)
+    for t in tags:
+        phases.append({'name': {'T': 'terrace', 'S': 'step'}[t], 'kind': 'iface', 'tag': t,
+                       'site_density': rnd.choice([2.1671e-9, 4.4385e-10, 1.5e-9, 3.0e-9]),
+                       'parents': ['gas'] + (['bulk'] if has_bulk else [])})
+    M['phases'] = phases
+    # ---- species: fragments and their combinations
+    nfrag = 5 if case.get('size') == 'huge' else rnd.randint(2, 5 if big else 3)
+    frags = []
+    while len(frags) < nfrag:
+        comp = {}
+        for el in rnd.sample(ATOMS, rnd.randint(1, 2)):
+            comp[el] = rnd.randint(1, 3)
+        # names that YAML 1.1 loaders read as booleans / null are left out (see notes/C07.md)
+        if comp not in frags and _comp_name(comp).upper() not in YAML11_WORDS:
+            frags.append(comp)
+
+    def add(a, b):
+        out = dict(a)
+        for k, v in b.items():
+            out[k] = out.get(k, 0) + v
+        return out
+    combos = []
+    for i in range(nfrag):
+        for j in range(i, nfrag):
+            c = add(frags[i], frags[j])
+            if c not in frags and c not in [x[0] for x in combos] \
+                    and _comp_name(c).upper() not in YAML11_WORDS:
+                combos.append((c, i, j))
+    rnd.shuffle(combos)
+    combos = combos[:(7 if case.get('size') == 'huge' else rnd.randint(1, 6 if big else 2))]
+    species = []
+    families = ['nasa'] if case.get('families') == 'nasa' else ['nasa', 'nasa', 'nasa9', 'shomate']
+
+    def mk(name, comp, phase, n_sites):
+        fam = rnd.choice(families)
+        elements = dict(comp)
+        if rnd.random() < 0.2:
+            elements = {k: float(v) for k, v in elements.items()}
+        sp = {'name': name, 'family': fam, 'phase': phase, 'elements': elements, 'n_sites': n_sites}
+        sp.update(_thermo(rnd, fam))
+        species.append(sp)
+        return sp
+    mols = frags + [c[0] for c in combos]
+    gas_names = []
+    for comp in mols:
+        if rnd.random() < 0.7 or not gas_names:
+            gas_names.append(mk(_comp_name(comp), comp, 'gas', None)['name'])
+    if has_bulk:
+        mk('%s(B)' % metal.upper(), {metal: 1}, 'bulk', None)
+    for t in tags:
+        ph = {'T': 'terrace', 'S': 'step'}[t]
+        mk('%s(%s)' % (metal.upper(), t), {metal: 1}, ph, rnd.choice([1, 1, 1.0]))
+        for comp in mols:
+            mk('%s(%s)' % (_comp_name(comp), t), add(comp, {metal: 1}), ph, rnd.choice([1, 1, 2, 1.0]))
+    M['species'] = species
+    names = {s['name'] for s in species}
+    # ---- BEPs
+    beps = []
+    for k in range(rnd.randint(0, 3 if big else 2)):
+        beps.append({'name': None if case.get('bep_names') == 'none' else 'BEP%d' % k,
+                     'slope': rnd.choice([0.29, 0.52, 0.71, 1.0]),
+                     'intercept': rnd.choice([19.78, 23.23, 23.69, 5.0]),
+                     'direction': rnd.choice(['cleavage', 'synthesis']),
+                     'descriptor': rnd.choice(['delta_H', 'rev_delta_H'])})
+    M['beps'] = beps
+    # ---- reactions
+    reactions = []
+    ts_species = []
+    want_rx = case.get('n_reactions', rnd.randint(0, 12 if big else 5))
+    if case.get('size') == 'huge':
+        want_rx = rnd.randint(25, 40)
+
+    def ids_policy():
+        r = rnd.random()
+        if case.get('ids') == 'auto':
+            return None
+        if case.get('ids') == 'collide' and r < 0.5:
+            return 'r_%04d' % rnd.randint(0, 3)
+        if r < 0.3:
+            return 'u_%04d' % (len(reactions) + 1 + 10 * rnd.randint(0, 2))
+        return None
+    attempts = 0
+    used_ids = set()
+    if not tags:
+        want_rx = 0
+    while len(reactions) < want_rx and attempts < 400:
+        attempts += 1
+        t = rnd.choice(tags)
+        site = '%s(%s)' % (metal.upper(), t)
+        kind = rnd.choice(['ads', 'ads', 'diss', 'diss', 'diss', 'assoc', 'er'])
+        rid = ids_policy()
+        if rid in used_ids:
+            rid = None
+        if rid is not None:
+            used_ids.add(rid)
+        rx = {'id': rid, 'ads': False, 'A': None, 'Ea': None, 'beta': None, 'stick': None,
+              'direction': None, 'ts': None, 'kind': kind}
+        if kind == 'ads':
+            g = rnd.choice(gas_names)
+            if '%s(%s)' % (g, t) not in names:
+                continue
+            lhs = [[1, g], [1, site]]
+            if rnd.random() < 0.3 and not case.get('gas_first'):
+                lhs.reverse()
+            rx.update(lhs=lhs, rhs=[[1, '%s(%s)' % (g, t)]], ads=True,
+                      stick=rnd.choice([None, 0.5, 0.25, 1.0]), beta=rnd.choice([None, 0, 0.5]),
+                      Ea=rnd.choice([None, None, 0.0, 2.5]))
+        elif kind in ('diss', 'assoc'):
+            if not combos:
+                continue
+            c, i, j = rnd.choice(combos)
+            ab, a, b = ['%s(%s)' % (_comp_name(x), t) for x in (c, frags[i], frags[j])]
+            left, right = [[1, ab], [1, site]], ([[1, a], [1, b]] if a != b else [[2, a]])
+            direction = 'cleavage'
+            if kind == 'assoc':
+                left, right, direction = right, left, 'synthesis'
+            rx.update(lhs=left, rhs=right, A=rnd.choice([None, None, 1.0e13, 9.6e17]),
+                      Ea=rnd.choice([None, None, 10.631665896868167, 0.0]),
+                      beta=rnd.choice([None, 1, 0.5]))
+            r = rnd.random()
+            if r < 0.35 and beps:
+                rx['ts'] = {'kind': 'bep', 'index': rnd.randrange(len(beps))}
+                rx['direction'] = direction
+            elif r < 0.7:
+                tsn = 'TS%d(%s)' % (len(ts_species), t)
+                ts = {'name': tsn, 'family': 'nasa', 'phase': {'T': 'terrace', 'S': 'step'}[t],
+                      'elements': add(c, {metal: 2}), 'n_sites': 2}
+                ts.update(_thermo(rnd, 'nasa'))
+                ts_species.append(ts)
+                rx['ts'] = {'kind': 'species', 'name': tsn}
+        else:                                               # Eley-Rideal: gas + adsorbate, not an adsorption
+            if not combos:
+                continue
+            c, i, j = rnd.choice(combos)
+            g, a, ab = _comp_name(frags[i]), '%s(%s)' % (_comp_name(frags[j]), t), '%s(%s)' % (_comp_name(c), t)
+            if g not in gas_names:
+                continue
+            rx.update(lhs=[[1, a], [1, g]], rhs=[[1, ab]], A=rnd.choice([None, 1.0e13]),
+                      Ea=rnd.choice([None, None, 3.0]))
+        # one reaction per equation (identical reactions are the same object to organize_phases)
+        if any(r['lhs'] == rx['lhs'] and r['rhs'] == rx['rhs'] for r in reactions):
+            if rid is not None:
+                used_ids.discard(rid)
+            continue
+        reactions.append(rx)
+    M['reactions'] = reactions
+    M['ts_species'] = ts_species
+    # ---- lateral interactions
+    inter = []
+    for k in range(case.get('n_interactions', rnd.randint(0, 10 if big else 3)) if tags else 0):
+        t = rnd.choice(tags)
+        ads = [s['name'] for s in species if s['name'].endswith('(%s)' % t)]
+        n = rnd.randint(1, 3)
+        inter.append({'name_i': rnd.choice(ads), 'name_j': rnd.choice(ads),
+                      'intervals': [0] + sorted(rnd.sample([0.1, 0.25, 0.5, 0.75], n - 1)) if rnd.random() < 0.5
+                      else [0.0] + sorted(rnd.sample([0.1, 0.25, 0.5, 0.75], n - 1)),
+                      'slopes': [rnd.choice([-52.6, -17.7, -3.0, 4.25, -20.7]) for _ in range(n)],
+                      'name': ('u_i_%04d' % (k + 20)) if rnd.random() < 0.25 else None})
+    M['interactions'] = inter
+    M['via'] = case.get('via') or rnd.choice(['organize', 'organize', 'direct', 'incremental'])
+    if case.get('bep_names') == 'none' and M['via'] == 'organize':
+        M['via'] = 'direct'          # organize_phases compares reactions, which needs named BEPs
+    M['ads_act_method'] = case.get('ads_act_method', 'get_H_act')
+    return M
+
+
+# --------------------------------------------------------------------------
+# real objects
+# --------------------------------------------------------------------------
+def _mk_species(sp, phase_attr):
+    import numpy as np
+    from pmutt.empirical.nasa import Nasa, Nasa9, SingleNasa9
+    from pmutt.empirical.shomate import Shomate
+    kw = dict(name=sp['name'], elements=dict(sp['elements']), phase=phase_attr, n_sites=sp['n_sites'])
+    if sp['family'] == 'nasa':
+        return Nasa(T_low=sp['T_low'], T_mid=sp['T_mid'], T_high=sp['T_high'],
+                    a_low=np.array(sp['a_low']), a_high=np.array(sp['a_high']), **kw)
+    if sp['family'] == 'nasa9':
+        segs = [SingleNasa9(T_low=s['T_low'], T_high=s['T_high'], a=np.array(s['a'])) for s in sp['segments']]
+        if sp.get('shuffle'):
+            segs = segs[::-1]
+        return Nasa9(nasas=segs, **kw)
+    return Shomate(T_low=sp['T_low'], T_high=sp['T_high'], a=np.array(sp['a']), **kw)
+
+
+def build(M):
+    """Real pmutt objects for the abstract model."""
+    from pmutt import pmutt_list_to_dict
+    from pmutt.io.omkm import organize_phases
+    from pmutt.mixture.cov import PiecewiseCovEffect
+    from pmutt.omkm.phase import IdealGas, StoichSolid, InteractingInterface
+    from pmutt.omkm.reaction import BEP, SurfaceReaction
+    from pmutt.omkm.units import Units
+    via = M['via']
+    species = [_mk_species(sp, sp['phase'] if via == 'organize' else None) for sp in M['species']]
+    ts = [_mk_species(sp, sp['phase'] if via == 'organize' else None) for sp in M['ts_species']]
+    by_name = pmutt_list_to_dict(species + ts)
+    beps = [BEP(name=b['name'], slope=b['slope'], intercept=b['intercept'], direction=b['direction'],
+                descriptor=b['descriptor']) for b in M['beps']]
+    reactions = []
+    for rx in M['reactions']:
+        kw = dict(reactants=[by_name[n] for _, n in rx['lhs']], reactants_stoich=[float(c) for c, _ in rx['lhs']],
+                  products=[by_name[n] for _, n in rx['rhs']], products_stoich=[float(c) for c, _ in rx['rhs']],
+                  id=rx['id'], is_adsorption=rx['ads'], A=rx['A'], Ea=rx['Ea'], beta=rx['beta'],
+                  sticking_coeff=rx['stick'], direction=rx['direction'])
+        if rx['ts'] is not None:
+            if rx['ts']['kind'] == 'bep':
+                kw.update(transition_state=[beps[rx['ts']['index']]], transition_state_stoich=[1.])
+            else:
+                kw.update(transition_state=[by_name[rx['ts']['name']]], transition_state_stoich=[1.])
+        reactions.append(SurfaceReaction(**kw))
+    inter = [PiecewiseCovEffect(name_i=i['name_i'], name_j=i['name_j'], intervals=list(i['intervals']),
+                                slopes=list(i['slopes']), name=i['name']) for i in M['interactions']]
+    members = {p['name']: [s for s, sp in zip(species, M['species']) if sp['phase'] == p['name']]
+               for p in M['phases']}
+    if via == 'organize':
+        pdata = []
+        for p in M['phases']:
+            d = {'name': p['name'],
+                 'phase_type': {'gas': 'IdealGas', 'solid': 'StoichSolid', 'iface': 'InteractingInterface'}[p['kind']]}
+            if p['kind'] == 'solid':
+                d['density'] = p['density']
+            if p['kind'] == 'iface':
+                d['site_density'] = p['site_density']
+                d['phases'] = list(p['parents'])
+            pdata.append(d)
+        phases = organize_phases(pdata, species=species, reactions=reactions or None,
+                                 interactions=inter or None)
+    else:
+        phases = []
+        for p in M['phases']:
+            if p['kind'] == 'gas':
+                ph = IdealGas(name=p['name']) if via == 'incremental' else IdealGas(name=p['name'], species=list(members[p['name']]))
+            elif p['kind'] == 'solid':
+                ph = (StoichSolid(name=p['name'], density=p['density']) if via == 'incremental'
+                      else StoichSolid(name=p['name'], density=p['density'], species=list(members[p['name']])))
+            else:
+                kw = dict(name=p['name'], site_density=p['site_density'], phases=list(p['parents']))
+                ph = InteractingInterface(**kw) if via == 'incremental' else InteractingInterface(species=list(members[p['name']]), **kw)
+            phases.append(ph)
+        if via == 'incremental':
+            # species added one by one, phase after phase; one of them removed and added again
+            for ph, p in zip(phases, M['phases']):
+                mem = members[p['name']]
+                for s in mem:
+                    ph.append_species(s)
+                if len(mem) >= 2:
+                    ph.remove_species(mem[0].name)
+                    ph.pop_species(0)
+                    ph.extend_species([mem[0], mem[1]])
+        # reactions / interactions of each phase (what organize_phases derives)
+        for ph, p in zip(phases, M['phases']):
+            mine = {s['name'] for s in M['species'] + M['ts_species'] if s['phase'] == p['name']}
+            rs = [r for r, rx in zip(reactions, M['reactions'])
+                  if any(n in mine for _, n in rx['lhs'] + rx['rhs'])]
+            if p['kind'] == 'iface':
+                ph.reactions = rs or None
+                its = [i for i, ii in zip(inter, M['interactions']) if ii['name_i'] in mine]
+                ph.interactions = its or None
+    ukw = {k: M['units'][k] for k in UNIT_KEYS}
+    units = None if M['units_form'] == 'absent' else (Units(**ukw) if M['units_form'] == 'obj' else ukw)
+    return {'phases': phases, 'species': species, 'reactions': reactions, 'beps': beps,
+            'interactions': inter, 'units': units}
+
+
+# --------------------------------------------------------------------------
+# the model's own values in the requested units
+# --------------------------------------------------------------------------
+def _factors(units):
+    from pmutt import constants as c
+    u = units
+    return {'fq': c.convert_unit(initial='mol', final=u['quantity']),
+            'fa': c.convert_unit(initial='cm2', final='%s2' % u['length']),
+            'fv': c.convert_unit(initial='cm3', final='%s3' % u['length']),
+            'fm': c.convert_unit(initial='g', final=u['mass']),
+            'fE': c.convert_unit(initial='kcal/mol', final=u['act_energy']),
+            'fe': c.convert_unit(initial='kcal', final=u['energy'])}
+
+
+def _segments(sp):
+    if sp['family'] == 'nasa':
+        return 'NASA7', [(sp['T_low'], sp['T_mid'], sp['a_low']), (sp['T_mid'], sp['T_high'], sp['a_high'])]
+    if sp['family'] == 'nasa9':
+        segs = sorted(sp['segments'], key=lambda s: s['T_low'])
+        return 'NASA9', [(s['T_low'], s['T_high'], s['a']) for s in segs]
+    return 'Shomate', [(sp['T_low'], sp['T_high'], sp['a'][:7])]
+
+
+def _dsegs(segs):
+    return [{'lo': to_dec(lo), 'hi': to_dec(hi), 'a': [to_dec(x) for x in a]} for lo, hi, a in segs]
+
+
+def _exp_species(sp):
+    model, segs = _segments(sp)
+    return {'found': True, 'name': sp['name'],
+            'comp': [[el, to_dec(n)] for el, n in sorted(sp['elements'].items())],
+            'has_sites': sp['n_sites'] is not None,
+            'sites': to_dec(sp['n_sites'] if sp['n_sites'] is not None else 0),
+            'model': model, 'segs': _dsegs(segs)}
+
+
+def _members(M):
+    """positions (1-based) of the reactions / interactions of every interface phase, BEP use"""
+    out = {}
+    for p in M['phases']:
+        mine = {s['name'] for s in M['species'] + M['ts_species'] if s['phase'] == p['name']}
+        rx = [k + 1 for k, r in enumerate(M['reactions']) if any(n in mine for _, n in r['lhs'] + r['rhs'])]
+        it = [k + 1 for k, i in enumerate(M['interactions']) if i['name_i'] in mine]
+        bp = sorted({M['reactions'][k - 1]['ts']['index'] for k in rx
+                     if (M['reactions'][k - 1]['ts'] or {}).get('kind') == 'bep'})
+        out[p['name']] = (rx if p['kind'] == 'iface' else [], it if p['kind'] == 'iface' else [],
+                          bp if p['kind'] == 'iface' else [])
+    return out
+
+
+def _exp_phase(M, p, f):
+    sp = [s for s in M['species'] if s['phase'] == p['name']]
+    els = sorted({el for s in sp for el in s['elements']})
+    rx, it, bp = _members(M)[p['name']]
+    u = M['units']
+    return {'found': True, 'name': p['name'], 'kind': p['kind'], 'species': [s['name'] for s in sp],
+            'elements': els, 'parents': p.get('parents', []),
+            'sd': to_dec(p.get('site_density', 0)), 'fq': to_dec(f['fq']), 'fa': to_dec(f['fa']),
+            'sd_unit': codes('%s/%s^2' % (u['quantity'], u['length'])),
+            'density': to_dec(p.get('density', 0)), 'fm': to_dec(f['fm']), 'fv': to_dec(f['fv']),
+            'rx': rx, 'inter': it, 'nbeps': len(bp),
+            'bep_names': [M['beps'][k]['name'] or '' for k in bp]}
+
+
+def _P_bar(M):
+    from pmutt import constants as c
+    return M['P'] * c.convert_unit(initial='atm', final='bar')
+
+
+def _exp_reaction(M, k, rx, robj, f, units_obj):
+    """The model's own rate parameters through the public getters, in the requested units."""
+    u = M['units']
+    T, P = M['T'], _P_bar(M)
+    e = {'found': True, 'l': [[int(c), n] for c, n in rx['lhs']], 'r': [[int(c), n] for c, n in rx['rhs']],
+         'id': rx['id'] or '', 'type': 'stick' if rx['ads'] else 'arr', 'motz': bool(M['motz']),
+         'Ea_unit': codes(u['act_energy']), 'stick_species': '', 'err': ''}
+    try:
+        beta = robj.beta
+        e['b'] = to_dec(beta)
+        if rx['ads']:
+            e['A'] = to_dec(robj.sticking_coeff)
+            gas = [n for _, n in rx['lhs'] if not n.endswith(')')]
+            e['stick_species'] = gas[0] if gas else ''
+            Ea = (rx['Ea'] * f['fE']) if rx['Ea'] is not None else \
+                getattr(robj, M['ads_act_method'])(units=u['act_energy'], T=T, P=P)
+        else:
+            A = rx['A'] if rx['A'] is not None else robj.get_A(
+                T=T, P=P, include_entropy=False, units='%s/%s2' % (u['quantity'], u['length']))
+            e['A'] = to_dec(A)
+            Ea = (rx['Ea'] * f['fE']) if rx['Ea'] is not None else robj.get_G_act(units=u['act_energy'], T=T, P=P)
+        e['Ea'] = to_dec(Ea)
+    except Exception as ex:                                 # the model itself cannot say
+        e.update(A=[0, 0], b=[0, 0], Ea=[0, 0], err='%s: %s' % (type(ex).__name__, ex))
+    return e
+
+
+def _exp_bep(M, k, f):
+    b = M['beps'][k]
+    u = M['units']
+    mem = {'cleavage': [], 'synthesis': []}
+    for i, rx in enumerate(M['reactions']):
+        if (rx['ts'] or {}).get('kind') == 'bep' and rx['ts']['index'] == k:
+            mem[rx['direction']].append(i + 1)
+    return {'found': True, 'id': b['name'] or '', 'slope': to_dec(b['slope']),
+            'intercept': to_dec(b['intercept']), 'fE': to_dec(f['fE']), 'unit': codes(u['act_energy']),
+            'direction': b['direction'], 'cleavage': mem['cleavage'], 'synthesis': mem['synthesis']}
+
+
+def _exp_inter(M, it, f):
+    u = M['units']
+    return {'found': True, 'pair': [it['name_i'], it['name_j']],
+            'thresholds': [to_dec(x) for x in it['intervals']],
+            'slopes': [to_dec(x) for x in it['slopes']], 'fe': to_dec(f['fe']), 'fq': to_dec(f['fq']),
+            'unit': codes('%s/%s' % (u['energy'], u['quantity'])), 'id': it['name'] or ''}
+
+
+NOTFOUND = {'found': False}
+_TERM = re.compile(r'^(?:(\d+(?:\.\d+)?)\s+)?(\S+)$')
+
+
+def _equation(s):
+    """'2 A + B <=> C' -> ([[2,'A'],[1,'B']], [[1,'C']]) ; None when it does not tokenise"""
+    if not isinstance(s, str) or s.count('<=>') != 1:
+        return None
+    sides = []
+    for side in s.split('<=>'):
+        terms = []
+        for t in side.split(' + '):
+            m = _TERM.match(t.strip())
+            if not m:
+                return None
+            coef = float(m.group(1)) if m.group(1) else 1.0
+            if coef != int(coef):
+                return None
+            terms.append([int(coef), m.group(2)])
+        sides.append(terms)
+    return sides
+
+
+def _strs(x):
+    return [str(i) for i in x] if isinstance(x, (list, tuple)) else ([] if x is None else [str(x)])
+
+
+def _decs(x):
+    out = []
+    for v in x if isinstance(x, (list, tuple)) else [x]:
+        if isinstance(v, bool) or not isinstance(v, (int, float)) or not core.finite(v):
+            return None
+        out.append(to_dec(v))
+    return out
+
+
+def _num_or_text(v):
+    """a scalar of the document: {'k': 'num', 'num': Dec} | {'k': 'str', 'codes': [...]} | {'k': 'other'}"""
+    if isinstance(v, bool):
+        return {'k': 'bool', 'num': [0, 0], 'codes': [], 'b': v}
+    if isinstance(v, (int, float)) and core.finite(v):
+        return {'k': 'num', 'num': to_dec(v), 'codes': [], 'b': False}
+    if isinstance(v, str) and len(v) < 80:
+        return {'k': 'str', 'num': [0, 0], 'codes': codes(v) if v.isascii() else [], 'b': False}
+    return {'k': 'absent' if v is None else 'other', 'num': [0, 0], 'codes': [], 'b': False}
+
+
+# --------------------------------------------------------------------------
+# projection of the YAML document
+# --------------------------------------------------------------------------
+SECTION = re.compile(r'^([A-Za-z][\w-]*):', re.M)
+
+
+def _segs_from_yaml(th):
+    rng, data = th.get('temperature-ranges'), th.get('data')
+    r, ok = _decs(rng) if isinstance(rng, list) else None, True
+    segs = []
+    if r is None or not isinstance(data, list) or len(r) != len(data) + 1:
+        return [], False
+    for k, row in enumerate(data):
+        a = _decs(row) if isinstance(row, list) else None
+        if a is None:
+            return [], False
+        segs.append({'lo': r[k], 'hi': r[k + 1], 'a': a})
+    return segs, ok
+
+
+def _yaml_species(ent):
+    th = ent.get('thermo') if isinstance(ent.get('thermo'), dict) else {}
+    segs, ok = _segs_from_yaml(th)
+    comp = ent.get('composition')
+    cd = []
+    if isinstance(comp, dict):
+        for el, n in sorted(comp.items(), key=lambda kv: str(kv[0])):
+            d = _decs(n)
+            if d is None:
+                ok = False
+            else:
+                cd.append([str(el), d[0]])
+    else:
+        ok = False
+    sites = ent.get('sites')
+    sd = _decs(sites) if sites is not None else [[0, 0]]
+    if sd is None or len(sd) != 1:
+        ok, sd = False, [[0, 0]]
+    return {'name': str(ent.get('name')), 'comp': cd, 'has_sites': sites is not None, 'sites': sd[0],
+            'model': str(th.get('model')), 'segs': segs, 'shape_ok': ok,
+            'extra': sorted(set(map(str, ent)) - {'name', 'composition', 'thermo', 'sites'})}
+
+
+def _yaml_phase(ent):
+    kind = {'ideal-gas': 'gas', 'ref-state-fixed-stoichiometry': 'solid', 'fixed-stoichiometry': 'solid',
+            'surface-lateral-interaction': 'iface', 'ideal-surface': 'iface'}.get(ent.get('thermo'), '?')
+    return {'name': str(ent.get('name')), 'kind': kind, 'species': _strs(ent.get('species')),
+            'elements': _strs(ent.get('elements')), 'parents': [],
+            'sd': _num_or_text(ent.get('site-density')), 'density': _num_or_text(None),
+            'rx_form': 'kw', 'rx_kw': str(ent.get('reactions', '')), 'rx_entries': [],
+            'int_form': 'kw', 'int_kw': str(ent.get('interactions', '')), 'int_entries': [],
+            'beps_form': 'kw', 'beps_kw': str(ent.get('beps', '')), 'beps_names': [],
+            'extra': sorted(set(map(str, ent)) - {'name', 'elements', 'species', 'thermo', 'kinetics',
+                                                  'site-density', 'reactions', 'interactions', 'beps'})}
+
+
+def _yaml_reaction(ent):
+    eq = _equation(ent.get('equation'))
+    rc = ent.get('sticking-coefficient') if 'sticking-coefficient' in ent else ent.get('rate-constant')
+    rc = rc if isinstance(rc, dict) else {}
+    mz = ent.get('Motz-Wise')
+    rid = ent.get('id')
+    return {'l': eq[0] if eq else [], 'r': eq[1] if eq else [], 'eq_ok': eq is not None,
+            'id': rid if isinstance(rid, str) else '', 'idc': codes(rid) if isinstance(rid, str) else [],
+            'type': 'stick' if 'sticking-coefficient' in ent else ('arr' if 'rate-constant' in ent else '?'),
+            'A': _num_or_text(rc.get('A')), 'b': _num_or_text(rc.get('b')), 'Ea': _num_or_text(rc.get('Ea')),
+            'stick_species': str(ent.get('sticking-species', '')),
+            'motz': 'absent' if mz is None else ('true' if mz is True else 'false' if mz is False else 'other'),
+            'extra': sorted(set(map(str, ent)) - {'equation', 'sticking-species', 'Motz-Wise', 'id',
+                                                  'sticking-coefficient', 'rate-constant'})}
+
+
+def _entry_codes(lst):
+    return [codes(str(x)) for x in lst] if isinstance(lst, list) else []
+
+
+def _yaml_bep(ent):
+    rid = ent.get('id')
+    return {'id': rid if isinstance(rid, str) else '', 'idc': codes(rid) if isinstance(rid, str) else [],
+            'slope': _num_or_text(ent.get('slope')), 'intercept': _num_or_text(ent.get('intercept')),
+            'direction': str(ent.get('direction')),
+            'cleavage': _entry_codes(ent.get('cleavage-reactions')),
+            'synthesis': _entry_codes(ent.get('synthesis-reactions')),
+            'extra': sorted(set(map(str, ent)) - {'id', 'slope', 'intercept', 'direction',
+                                                  'cleavage-reactions', 'synthesis-reactions'})}
+
+
+def _yaml_inter(ent):
+    rid = ent.get('id')
+    th = _decs(ent.get('coverage-threshold')) if isinstance(ent.get('coverage-threshold'), list) else None
+    st = ent.get('strength')
+    return {'pair': _strs(ent.get('species')), 'thresholds': th or [], 'th_ok': th is not None,
+            'strengths': [_num_or_text(x) for x in st] if isinstance(st, list) else [],
+            'id': rid if isinstance(rid, str) else '', 'idc': codes(rid) if isinstance(rid, str) else [],
+            'extra': sorted(set(map(str, ent)) - {'species', 'coverage-threshold', 'strength', 'id'})}
+
+
+def project_yaml(text):
+    import yaml
+    out = {'loaded': False, 'sections': SECTION.findall(text), 'msg': ''}
+    try:
+        doc = yaml.safe_load(text)
+        out['loaded'] = isinstance(doc, dict)
+    except yaml.YAMLError as ex:
+        out['msg'] = ('%s: %s' % (type(ex).__name__, ex))[:300]
+        return out
+
+    def lst(key):
+        v = doc.get(key) if isinstance(doc, dict) else None
+        return [e for e in v if isinstance(e, dict)] if isinstance(v, list) else []
+    un = doc.get('units') if isinstance(doc, dict) and isinstance(doc.get('units'), dict) else {}
+    out['units'] = {k: codes(str(un.get(y, ''))) for k, y in
+                    (('length', 'length'), ('time', 'time'), ('quantity', 'quantity'), ('energy', 'energy'),
+                     ('act_energy', 'activation-energy'), ('pressure', 'pressure'), ('mass', 'mass'))}
+    out['motz'] = 'absent'
+    out['phases'] = [_yaml_phase(e) for e in lst('phases')]
+    out['species'] = [_yaml_species(e) for e in lst('species')]
+    out['reactions'] = [_yaml_reaction(e) for e in lst('reactions')]
+    out['beps'] = [_yaml_bep(e) for e in lst('beps')]
+    out['interactions'] = [_yaml_inter(e) for e in lst('interactions')]
+    return out
+
+
+# --------------------------------------------------------------------------
+# projection of the CTI document (CTI is Python syntax: tokenised with ast)
+# --------------------------------------------------------------------------
+def _node(n):
+    if isinstance(n, ast.Constant):
+        return n.value
+    if isinstance(n, (ast.List, ast.Tuple)):
+        return [_node(e) for e in n.elts]
+    if isinstance(n, ast.UnaryOp) and isinstance(n.op, (ast.USub, ast.UAdd)) and isinstance(n.operand, ast.Constant) \
+            and isinstance(n.operand.value, (int, float)):
+        return -n.operand.value if isinstance(n.op, ast.USub) else n.operand.value
+    if isinstance(n, ast.Call) and isinstance(n.func, ast.Name):
+        return {'call': n.func.id, 'args': [_node(a) for a in n.args],
+                'kw': {k.arg: _node(k.value) for k in n.keywords if k.arg}}
+    return {'bad': type(n).__name__}
+
+
+def _cti_species(d):
+    kw = d['kw']
+    th = kw.get('thermo')
+    polys = th if isinstance(th, list) else [th]
+    segs, ok, model = [], True, '?'
+    for p in polys:
+        if not (isinstance(p, dict) and p.get('call') in ('NASA', 'Shomate') and len(p['args']) == 2):
+            ok = False
+            continue
+        rng, a = _decs(p['args'][0]) if isinstance(p['args'][0], list) else None, \
+            _decs(p['args'][1]) if isinstance(p['args'][1], list) else None
+        if rng is None or a is None or len(rng) != 2:
+            ok = False
+            continue
+        segs.append({'lo': rng[0], 'hi': rng[1], 'a': a})
+        model = 'Shomate' if p['call'] == 'Shomate' else ('NASA7' if len(a) == 7 else 'NASA9' if len(a) == 9 else '?')
+    cd = []
+    atoms = kw.get('atoms')
+    if isinstance(atoms, str):
+        for tok in atoms.split():
+            el, _, n = tok.partition(':')
+            try:
+                cd.append([el, to_dec(float(n))])
+            except ValueError:
+                ok = False
+        cd.sort()
+    else:
+        ok = False
+    size = kw.get('size')
+    sd = _decs(size) if size is not None else [[0, 0]]
+    if sd is None:
+        ok, sd = False, [[0, 0]]
+    return {'name': str(kw.get('name')), 'comp': cd, 'has_sites': size is not None, 'sites': sd[0],
+            'model': model, 'segs': segs, 'shape_ok': ok and not d['args'],
+            'extra': sorted(set(kw) - {'name', 'atoms', 'size', 'thermo'})}
+
+
+def _split(v):
+    return v.split() if isinstance(v, str) else []
+
+
+def _cti_phase(d):
+    kw = d['kw']
+    kind = {'ideal_gas': 'gas', 'stoichiometric_solid': 'solid', 'interacting_interface': 'iface'}[d['call']]
+
+    def rng(key):
+        v = kw.get(key)
+        if v is None:
+            return 'absent', []
+        if isinstance(v, list) and all(isinstance(x, str) for x in v):
+            return 'range', [codes(x) for x in v]
+        return 'other', []
+    rf, re_ = rng('reactions')
+    itf, ite = rng('interactions')
+    return {'name': str(kw.get('name')), 'kind': kind, 'species': _split(kw.get('species')),
+            'elements': _split(kw.get('elements')), 'parents': _split(kw.get('phases')),
+            'sd': _num_or_text(kw.get('site_density')), 'density': _num_or_text(kw.get('density')),
+            'rx_form': rf, 'rx_kw': '', 'rx_entries': re_,
+            'int_form': itf, 'int_kw': '', 'int_entries': ite,
+            'beps_form': 'absent' if kw.get('beps') is None else 'names', 'beps_kw': '',
+            'beps_names': _split(kw.get('beps')),
+            'extra': sorted(set(kw) - {'name', 'elements', 'species', 'phases', 'site_density', 'density',
+                                       'reactions', 'interactions', 'beps'}) + (['positional'] if d['args'] else [])}
+
+
+def _cti_reaction(d):
+    args, kw = d['args'], d['kw']
+    eq = _equation(args[0]) if args else None
+    rate = args[1] if len(args) > 1 else None
+    typ, vals = '?', [None, None, None]
+    if isinstance(rate, dict) and rate.get('call') == 'stick' and len(rate['args']) == 3:
+        typ, vals = 'stick', rate['args']
+    elif isinstance(rate, list) and len(rate) == 3:
+        typ, vals = 'arr', rate
+    rid = kw.get('id')
+    return {'l': eq[0] if eq else [], 'r': eq[1] if eq else [], 'eq_ok': eq is not None,
+            'id': rid if isinstance(rid, str) else '', 'idc': codes(rid) if isinstance(rid, str) else [],
+            'type': typ, 'A': _num_or_text(vals[0]), 'b': _num_or_text(vals[1]), 'Ea': _num_or_text(vals[2]),
+            'stick_species': '', 'motz': 'absent',
+            'extra': sorted(set(kw) - {'id'}) + (['positional'] if len(args) > 2 else [])}
+
+
+def _cti_bep(d):
+    kw = d['kw']
+    rid = kw.get('id')
+
+    def ent(key):
+        v = kw.get(key)
+        return [codes(x) for x in v] if isinstance(v, list) and all(isinstance(x, str) for x in v) else []
+    return {'id': rid if isinstance(rid, str) else '', 'idc': codes(rid) if isinstance(rid, str) else [],
+            'slope': _num_or_text(kw.get('slope')), 'intercept': _num_or_text(kw.get('intercept')),
+            'direction': str(kw.get('direction')), 'cleavage': ent('cleavage_reactions'),
+            'synthesis': ent('synthesis_reactions'),
+            'extra': sorted(set(kw) - {'id', 'slope', 'intercept', 'direction', 'cleavage_reactions',
+                                       'synthesis_reactions'}) + (['positional'] if d['args'] else [])}
+
+
+def _cti_inter(d):
+    kw = d['kw']
+    rid = kw.get('id')
+    th = _decs(kw.get('coverage_thresholds')) if isinstance(kw.get('coverage_thresholds'), list) else None
+    st = kw.get('strengths')
+    return {'pair': _split(d['args'][0]) if d['args'] and isinstance(d['args'][0], str) else [],
+            'thresholds': th or [], 'th_ok': th is not None,
+            'strengths': [_num_or_text(x) for x in st] if isinstance(st, list) else [],
+            'id': rid if isinstance(rid, str) else '', 'idc': codes(rid) if isinstance(rid, str) else [],
+            'extra': sorted(set(kw) - {'coverage_thresholds', 'strengths', 'id'})}
+
+
+def project_cti(text):
+    out = {'loaded': False, 'sections': [], 'msg': ''}
+    try:
+        tree = ast.parse(text)
+    except SyntaxError as ex:
+        out['msg'] = ('SyntaxError: %s' % ex)[:300]
+        return out
+    out['loaded'] = True
+    dirs = []
+    for stmt in tree.body:
+        n = _node(stmt.value) if isinstance(stmt, ast.Expr) else {'bad': type(stmt).__name__}
+        dirs.append(n if isinstance(n, dict) and 'call' in n else {'call': '?', 'args': [], 'kw': {}})
+    out['sections'] = [d['call'] for d in dirs]
+    un = next((d['kw'] for d in dirs if d['call'] == 'units'), {})
+    out['units'] = {k: codes(str(un.get(k, ''))) for k in UNIT_KEYS}
+    mz = [d['call'] for d in dirs if d['call'] in ('enable_motz_wise', 'disable_motz_wise')]
+    out['motz'] = 'absent' if not mz else ('other' if len(mz) > 1 else
+                                           'true' if mz[0] == 'enable_motz_wise' else 'false')
+    out['phases'] = [_cti_phase(d) for d in dirs
+                     if d['call'] in ('ideal_gas', 'stoichiometric_solid', 'interacting_interface')]
+    out['species'] = [_cti_species(d) for d in dirs if d['call'] == 'species']
+    out['reactions'] = [_cti_reaction(d) for d in dirs if d['call'] == 'surface_reaction']
+    out['beps'] = [_cti_bep(d) for d in dirs if d['call'] == 'bep']
+    out['interactions'] = [_cti_inter(d) for d in dirs if d['call'] == 'lateral_interaction']
+    return out
+
+
+# --------------------------------------------------------------------------
+# one case
+# --------------------------------------------------------------------------
+def _events(fmt, M, objs, proj, raised, f):
+    u = M['units']
+    used_beps = _first_use_order(M)
+    exp = {'phases': [p['name'] for p in M['phases']], 'species': [s['name'] for s in M['species']],
+           'nrx': len(M['reactions']), 'nbeps': len(used_beps), 'ninter': len(M['interactions']),
+           'has_rx': bool(M['reactions']), 'has_inter': bool(M['interactions']),
+           'units': {k: codes(u[k]) for k in UNIT_KEYS}, 'motz': bool(M['motz'])}
+    ev = [{'ev': 'begin', 'fmt': fmt, 'raised': raised, 'loaded': bool(proj.get('loaded')),
+           'sections': proj.get('sections', []), 'units': proj.get('units', {k: [] for k in UNIT_KEYS}),
+           'motz': proj.get('motz', 'absent'), 'exp': exp}]
+    if raised or not proj.get('loaded'):
+        ev.append({'ev': 'end'})
+        return ev
+    for k, o in enumerate(proj['reactions']):
+        e = (_exp_reaction(M, k, M['reactions'][k], objs['reactions'][k], f, objs['units'])
+             if k < len(M['reactions']) else NOTFOUND)
+        ev.append({'ev': 'reaction', 'k': k + 1, 'obs': o, 'exp': e})
+    for k, o in enumerate(proj['interactions']):
+        e = _exp_inter(M, M['interactions'][k], f) if k < len(M['interactions']) else NOTFOUND
+        ev.append({'ev': 'interaction', 'k': k + 1, 'obs': o, 'exp': e})
+    for k, o in enumerate(proj['beps']):
+        e = _exp_bep(M, used_beps[k], f) if k < len(used_beps) else NOTFOUND
+        # BEPs are written in order of first use
+        ev.append({'ev': 'bep', 'k': k + 1, 'obs': o, 'exp': e})
+    sp_by = {s['name']: s for s in M['species']}
+    for o in proj['species']:
+        ev.append({'ev': 'species', 'obs': o,
+                   'exp': _exp_species(sp_by[o['name']]) if o['name'] in sp_by else NOTFOUND})
+    ph_by = {p['name']: p for p in M['phases']}
+    for o in proj['phases']:
+        ev.append({'ev': 'phase', 'obs': o,
+                   'exp': _exp_phase(M, ph_by[o['name']], f) if o['name'] in ph_by else NOTFOUND})
+    ev.append({'ev': 'end'})
+    return ev
+
+
+def _first_use_order(M):
+    seen = []
+    for rx in M['reactions']:
+        if (rx['ts'] or {}).get('kind') == 'bep' and rx['ts']['index'] not in seen:
+            seen.append(rx['ts']['index'])
+    return seen
+
+
+def run_case(case):
+    from pmutt.io.omkm import write_cti, write_thermo_yaml
+    M = abstract_model(case)
+    f = _factors(M['units'])
+    out = {'events': {}, 'mism': [], 'build_error': ''}
+    for fmt in case.get('formats', ['yaml', 'cti']):
+        try:
+            objs = build(M)                                # fresh objects per file (writers assign ids)
+        except Exception as ex:                            # the library refused a valid model
+            out['build_error'] = '%s: %s' % (type(ex).__name__, ex)
+            out['events'][fmt] = [{'ev': 'begin', 'fmt': fmt, 'raised': 'build:' + type(ex).__name__,
+                                   'loaded': False, 'sections': [], 'units': {k: [] for k in UNIT_KEYS},
+                                   'motz': 'absent', 'exp': {'phases': [], 'species': [], 'nrx': 0, 'nbeps': 0,
+                                                             'ninter': 0, 'has_rx': False, 'has_inter': False,
+                                                             'units': {k: [] for k in UNIT_KEYS}, 'motz': False}},
+                                  {'ev': 'end'}]
+            continue
+        kw = dict(phases=objs['phases'], species=objs['species'],
+                  reactions=objs['reactions'] or None, lateral_interactions=objs['interactions'] or None,
+                  T=M['T'], use_motz_wise=M['motz'])
+        if objs['units'] is not None:
+            kw['units'] = objs['units']
+        if M['P'] != 1.0:
+            kw['P'] = M['P']
+        if M['ads_act_method'] != 'get_H_act':
+            kw['ads_act_method'] = M['ads_act_method']
+        raised, text = '', None
+        try:
+            text = write_thermo_yaml(**kw) if fmt == 'yaml' else write_cti(**kw)
+        except Exception as ex:
+            raised = type(ex).__name__
+            out['msg_' + fmt] = '%s: %s' % (type(ex).__name__, str(ex)[:300])
+        proj = {} if text is None else (project_yaml(text) if fmt == 'yaml' else project_cti(text))
+        # BEPs appear in order of first use; pair them that way
+        M2 = dict(M)
+        out['events'][fmt] = _events(fmt, M2, objs, proj, raised, f)
+        if proj.get('msg'):
+            out['msg_' + fmt] = proj['msg']
+        if raised or proj.get('msg'):
+            out['events'][fmt][0]['msg'] = out.get('msg_' + fmt, '')
+    return out
+
+
+def execute(case):
+    out = run_case(case)
+    events = []
+    for fmt in case.get('formats', ['yaml', 'cti']):
+        events.extend(out['events'][fmt])
+    return case, events, out['mism']
+
+
+def _fmt_at(events, idx):
+    for k in range(idx, -1, -1):
+        if events[k]['ev'] == 'begin':
+            return events[k]
+    return {}
+
+
+def facts(case):
+    """Small facts about a model, used (selectively) as tags of violations."""
+    M = abstract_model(case)
+    used = {rx['ts']['index'] for rx in M['reactions'] if (rx['ts'] or {}).get('kind') == 'bep'}
+    return {'via': M['via'], 'units_form': M['units_form'],
+            'has_nasa9': any(s['family'] == 'nasa9' for s in M['species']),
+            'shomate_with_sites': any(s['family'] == 'shomate' and s['n_sites'] is not None for s in M['species']),
+            'ads_gas_not_first': any(rx['ads'] and rx['lhs'][0][1].endswith(')') for rx in M['reactions']),
+            'has_interactions': bool(M['interactions']),
+            'unnamed_bep_used': any(M['beps'][k]['name'] is None for k in used),
+            'energy_per_quantity': '%s/%s' % (M['units']['energy'], M['units']['quantity']),
+            'P_is_default': M['P'] == 1.0, 'ads_act_method': M['ads_act_method'],
+            'ids': case.get('ids', 'mixed')}
+
+
+def tags(case):
+    return {'part': 'doc'}
+
+
+# which facts matter for which clause (keeps the tag sets, and so the finding matchers, small)
+RELEVANT = {('WellFormed', 'yaml'): ('shomate_with_sites',), ('WellFormed', 'cti'): ('has_nasa9',),
+            ('UniqueIds', 'yaml'): ('ids',), ('UniqueIds', 'cti'): ('ids',),
+            ('PhaseLists', 'yaml'): ('via',), ('PhaseLists', 'cti'): ('via',),
+            ('IdAssigned', 'cti'): ('unnamed_bep_used',), ('IdAssigned', 'yaml'): ('unnamed_bep_used',)}
+
+
+def event_tags(case, events, idxs, clause):
+    ev = events[idxs[0]]
+    b = _fmt_at(events, idxs[0])
+    fmt = b.get('fmt', '')
+    t = {'fmt': fmt, 'entry': ev['ev']}
+    fx = facts(case)
+    for k in RELEVANT.get((clause, fmt), ()):
+        t[k] = fx[k]
+    if b.get('raised'):
+        t['exc'] = b['raised']
+        if b['raised'] == 'ValueError':
+            t['energy_per_quantity'] = fx['energy_per_quantity']
+            t['has_interactions'] = fx['has_interactions']
+        elif b['raised'] == 'AttributeError':
+            t['ads_gas_not_first'] = fx['ads_gas_not_first']
+        elif b['raised'] == 'TypeError':
+            t['unnamed_bep_used'] = fx['unnamed_bep_used']
+    if ev['ev'] == 'species' and ev['exp'].get('found'):
+        t['family'] = ev['exp']['model']
+    if ev['ev'] == 'interaction' and clause == 'NumberMatches':
+        t['energy_per_quantity'] = fx['energy_per_quantity']
+    if ev['ev'] == 'reaction' and ev['exp'].get('found'):
+        M = abstract_model(case)
+        rx = M['reactions'][ev['k'] - 1]
+        t['rx_kind'] = rx['kind']
+        if clause == 'NumberMatches':
+            t['P_is_default'] = fx['P_is_default']
+            t['ads_act_method'] = fx['ads_act_method']
+            t['Ea_given'] = rx['Ea'] is not None
+    return t
+
+
+def signature(case):
+    return json.dumps(case, sort_keys=True)
+
+
+def nontrivial(case):
+    M = abstract_model(case)
+    return bool(M['reactions'] or M['interactions'])
+
+
+def sample(case):
+    M = abstract_model(case)
+    return {'part': 'doc', 'case': case, 'n_species': len(M['species']), 'n_reactions': len(M['reactions']),
+            'n_interactions': len(M['interactions']), 'via': M['via'], 'units': M['units']}
+
+
+def models(ctx):
+    def good():
+        ctx.model('OmkmIds', 'MC_OmkmIds', workers=1)
+
+    def counter():
+        bad = ctx.model('OmkmIds', 'MC_OmkmIds_counter', workers=1, expect_ok=False)
+        if bad.ok or bad.violated is None:
+            raise core.MachineryError('the counter id allocation should be rejected by OmkmIds.tla')
+        ctx.notes.append('OmkmIds.tla rejects the r_%%04d counter allocation: %s violated' % bad.violated)
+    return [good, counter]
+
+
+def generate(ctx, rnd):
+    cases = []
+    n = ctx.pick(90, 900)
+    for k in range(n):
+        c = {'part': 'doc', 'cid': 'd%d' % k, 'seed': rnd.randrange(1 << 30),
+             'size': 'big' if k % 5 == 0 else 'small'}
+        if k % 5 in (1, 2):
+            c['families'] = 'nasa'
+        if k % 3 != 0:
+            c['gas_first'] = True
+        if k % 13 == 6:
+            c['n_iface'] = 0
+        if not ctx.quick and k % 10 == 9:
+            c['size'] = 'huge'
+        if k % 7 == 3:
+            c['ids'] = 'collide'
+        if k % 6 == 1:
+            c['P'] = rnd.choice([0.5, 2.0, 10.0])
+        if k % 9 == 4:
+            c['ads_act_method'] = 'get_G_act'
+        if k % 11 == 5:
+            c['bep_names'] = 'none'
+        cases.append(c)
+    return cases
